@@ -252,7 +252,18 @@ def rule_d(ctx, send0, recv, body, new):
     ctx.check(bool(cell_drops), rid, "send:assign-with-drop", "send writes the cell by assignment-with-drop (old content dropped, not overwritten bitwise)", send0.span, None)
 
 
+def rule_e(ctx):
+    """exclusivity by index ownership needs the take/give primitives to hand every index to one owner: the CAS loops must recompute the
+    returned index and the new queue word from the snapshot the successful CAS compared against (shared with C08.e)"""
+    from .C08 import rule_e as coherence
+    from .C18 import _Alias
+    ctx.rule("C07.e", "take/give CAS loops are coherent: returned index and new queue word derive from the snapshot of the successful compare_exchange, "
+                      "on every iteration — a stale head after a retry hands one cell to two owners (shared with C08.e)", floor=3)
+    coherence(_Alias(ctx, "C07.e"))
+
+
 def run(ctx):
+    ctx.guarded("C07.e", rule_e)
     from .. import fixtures
     ctx.guarded("C07.FX", lambda c: fixtures.run(c, ['escapes', 'orderings']))
     r = ctx.guarded("C07.a", rule_a)
